@@ -5,6 +5,12 @@ ROOT = os.path.dirname(os.path.dirname(os.path.abspath(__file__)))
 
 # id -> (level category, technique, level text, level note, design ref)
 BUILT = {
+ "C26": ("exploration", "proptest pairs of composite keys vs an independent value order (order-preservation, injectivity, decode round-trip)",
+         "Generated pairs of 1..3-column keys over every encodable type, half of them one nudge apart so encodings share long prefixes; memcmp order must equal the documented value order, equal keys only for equal values, decode_key must invert and consume all bytes.",
+         "The value order is the one written in the module documentation of src/encoding/key.rs; pairs the documentation does not order are only checked for injectivity. OwnedValue->key conversion inside Database is covered by the SQL-level index checks (C10), not here.", "4 C26"),
+ "C30": ("exploration", "proptest sorted key sets vs plain binary search (differential) + bracket containment for AVX2 and scalar narrowing",
+         "Generated well-formed leaf pages (0..400 keys with heavy 4-byte-prefix ties, short keys, high-bit prefixes); every key, its neighbours and generated probes are looked up and compared with a plain binary search; both prefix-narrowing variants must return a bracket containing the probe's prefix class.",
+         "Pages are built with LeafNodeMut::insert_at_end; the NEON variant cannot be compiled on this x86_64 sandbox.", "4 C30"),
  "C27": ("exploration", "exhaustive enumeration + proptest generated values/byte strings vs an independent format specification",
          "Every value with a 1..4-byte encoding is enumerated (quick), the 5-byte class too (thorough); the 9-byte class and byte strings are covered by boundary patterns and generated cases. Round-trip, canonical length, bounds (consumed <= len) and agreement with a reference decoder are checked for each.",
          "The 9-byte class is sampled, not exhausted; the reference decoder in the harness is written from the format description.", "4 C27"),
@@ -40,7 +46,7 @@ def main():
         "hooks": {
             "guard": "kahflane_turdb_verif",
             "enable": "RUSTFLAGS=--cfg kahflane_turdb_verif (set in /verif/harness/.cargo/config.toml; every check builds /repo as a path dependency with it)",
-            "baseline_off_cmd": "cd /repo && cargo nextest run --workspace --no-fail-fast --test-threads 8 --offline || cargo test --workspace --no-fail-fast --offline",
+            "baseline_off_cmd": "/verif/tools/baseline.sh",
             "source_commits": hooks_commits,
             "add_only": True,
         },
